@@ -8,6 +8,7 @@ read back, exceptions are recorded and replayed, forgetting a call makes exactly
 import datetime
 import math
 import gc
+import json
 import os
 import random
 import shutil
@@ -331,6 +332,57 @@ def run(tier, seed):
             if mm is None or mm.invocation_metadata.result_type != ResultType.exception:
                 rep.violation("C02:exception-result-type", "memento %r" % (mm,), meta)
             shutil.rmtree(os.path.join(scratch, "store-e%d" % ei), ignore_errors=True)
+        # (d) an exception recorded by one process and replayed in another, where the module that defines the class has not
+        # been imported yet (the body that would import it does not run on a hit)
+        xroot = os.path.join(scratch, "xproc")
+        os.makedirs(xroot, exist_ok=True)
+        with open(os.path.join(xroot, "lazyerr_mod.py"), "w") as f:
+            f.write("class QuotaError(Exception):\n    pass\n")
+        with open(os.path.join(xroot, "lazyfn_mod.py"), "w") as f:
+            f.write("import builtins\nfrom twosigma.memento import memento_function\n\n"
+                    "@memento_function(cluster='fc', version='1')\ndef lazy_fail(x):\n"
+                    "    t = getattr(builtins, '_vt', None)\n    if t is not None:\n        t(('exec', 'lazy_fail', x, None))\n"
+                    "    import lazyerr_mod\n    raise lazyerr_mod.QuotaError('quota %d exceeded' % x)\n")
+        script = (
+            "import builtins, json, os, sys\n"
+            "root, store, cache = sys.argv[1], sys.argv[2], sys.argv[3] == '1'\n"
+            "sys.path.insert(0, root)\nos.environ['HOME'] = root\n"
+            "import logging; logging.disable(logging.CRITICAL)\n"
+            "import twosigma.memento as m\n"
+            "from twosigma.memento.storage_filesystem import FilesystemStorageBackend\n"
+            "st = FilesystemStorageBackend(path=store, memory_cache_mb=(4 if cache else None))\n"
+            "m.Environment.set(m.Environment(name='x', base_dir=root, repos=[m.ConfigurationRepository(name='r', clusters={'fc': m.FunctionCluster(name='fc', storage=st)})]))\n"
+            "ev = []\nbuiltins._vt = ev.append\n"
+            "import lazyfn_mod\n"
+            "out = {'loaded_before': 'lazyerr_mod' in sys.modules}\n"
+            "try:\n    lazyfn_mod.lazy_fail(3)\n    out['raised'] = None\n"
+            "except Exception as e:\n    out['raised'] = [type(e).__module__, type(e).__qualname__, str(e)]\n"
+            "out['execs'] = len(ev)\n"
+            "print('@@' + json.dumps(out))\n")
+        with open(os.path.join(xroot, "xrun.py"), "w") as f:
+            f.write(script)
+        import subprocess
+        for cache in (False, True):
+            store = os.path.join(xroot, "store%d" % cache)
+            outs = []
+            for _ in range(2):
+                pr = subprocess.run([C.PY, os.path.join(xroot, "xrun.py"), xroot, store, "1" if cache else "0"], capture_output=True, text=True, timeout=120,
+                                    env=dict(os.environ, PYTHONPATH=C.REPO, PYTHONHASHSEED="0"))
+                line = [l for l in pr.stdout.splitlines() if l.startswith("@@")]
+                outs.append(json.loads(line[0][2:]) if line else {"error": (pr.stderr or pr.stdout)[-300:]})
+            total += 1
+            kinds["exc:cross-process"] = kinds.get("exc:cross-process", 0) + 1
+            meta = {"exception": "lazyerr_mod.QuotaError (module imported only inside the body)", "backend": "fs_cache" if cache else "fs", "first process": outs[0], "second process": outs[1]}
+            if any("error" in o for o in outs):
+                rep.violation("C02:cross-process-replay-raised", "the replay script failed: %r" % (outs,), meta)
+            elif outs[0]["raised"] is None or outs[0]["raised"][:2] != ["lazyerr_mod", "QuotaError"] or outs[0]["execs"] != 1:
+                rep.violation("C02:exception-lost:cross-process", "the first process saw %r" % (outs[0],), meta)
+            elif outs[1]["execs"] != 0:
+                rep.violation("C02:exception-body-count:cross-process", "the second process executed the body %d times" % outs[1]["execs"], meta)
+            elif outs[1]["raised"] is None or outs[1]["raised"][:2] != ["lazyerr_mod", "QuotaError"]:
+                rep.violation("C02:replayed-exception-class:cross-process", "recorded as lazyerr_mod.QuotaError, replayed in a later process as %r" % (outs[1]["raised"],), meta)
+            elif "quota 3 exceeded" not in outs[1]["raised"][2]:
+                rep.violation("C02:replayed-exception-message:cross-process", "original message lost: %r" % outs[1]["raised"][2], meta)
         try:
             res = C.run_coq_cases("c02", R.HEADER, terms, "run_case", shard=200,
                                   case_type="list (nat * ndef) * list (nat * nat) * (nat * nat) * (outcome * list nat * list key * list nat)")
